@@ -76,4 +76,11 @@ for mp in sorted(glob.glob(os.path.join(HERE, 'seeded', '*', 'meta.json'))):
              f"{m.get('demo_with_change_rc')}/{m.get('demo_without_change_rc')} | "
              f"{'pass' if m.get('suite_pass') else m.get('suite_pass')} | "
              f"{'; '.join(caught)} | {', '.join(missed)} |")
-print('\n'.join(out))
+text = '\n'.join(out)
+dp = os.path.join(HERE, 'DESIGN.md')
+d = open(dp).read()
+a = d.index('<!-- BEGIN GENERATED TABLES (tools_report.py) -->')
+b = d.index('<!-- END GENERATED TABLES -->')
+d = d[:a] + '<!-- BEGIN GENERATED TABLES (tools_report.py) -->\n\n' + text + '\n\n' + d[b:]
+open(dp, 'w').write(d)
+print('DESIGN.md tables updated:', len(out), 'lines')
